@@ -79,7 +79,7 @@ ENGINE = 'that the tokio engine tasks (select! loops, mpsc channels) call these 
 PROPS = {
     'C02': dict(
         probes=[dict(name='cci_session_agreement', kind='agreement', target='fe2o3_amqp::session::consecutive_chunk_indices', args=['C02.cci-session'], claim='session::consecutive_chunk_indices (iterator adapters; enters unit SESSION as an assumed contract) agrees with its oracle: a new run starts exactly where the next id is not the previous + 1', bound='every ascending sequence of <= 6 ids over {0,1,2,3,5,6,2^32-2,2^32-1} (3003 sequences), real function through the verif-hooks facade'), dict(name='cci_receiver_agreement', kind='agreement', target='fe2o3_amqp::link::receiver_link::consecutive_chunk_indices', args=['C02.cci-receiver'], claim='receiver_link::consecutive_chunk_indices agrees with its oracle: a new run starts exactly where the id is not consecutive OR the per-delivery rcv-settle-mode changes', bound='every ascending sequence of <= 6 ids over 8 values x every assignment of {unset, first, second} (1.47 M cases), real function through the verif-hooks facade')],
-        units=['SESSION', 'SENDSPLIT', 'LINK'], kani=[], level='proof', title='Settlement',
+        units=['SESSION', 'SENDSPLIT', 'LINK', 'LINKATTACH'], kani=[], level='proof', title='Settlement',
         assumptions=[ASYNC, ENGINE,
             'session::consecutive_chunk_indices enters with an assumed contract (iterator adapters are outside the Verus subset)',
             'in unit SESSION a link is a ghost call log whose echo answer is the contract of LinkRelay::on_incoming_disposition (sender && !settled && rcv-settle-mode second)',
